@@ -142,6 +142,10 @@ _redef_n = [0]
 
 def _exec_into(module, src, root, plain):
     """Execute src in module's namespace from a real file (so inspect.getsource works)."""
+    # CPython compiles `sys.audit(...)` differently depending on whether `import sys` occurs in the
+    # same compilation unit, so the snippet carries the module's import header: the re-defined
+    # function then has the byte code it has when the whole module text is imported.
+    src = progen.HEADER + ("" if plain else "import twosigma.memento as m\n") + src
     _redef_n[0] += 1
     path = os.path.join(root, "redef_%d_%s.py" % (_redef_n[0], "p" if plain else "m"))
     with open(path, "w") as f:
